@@ -61,14 +61,15 @@ Record trow := mkTrow {
   t_has_next : bool;
   t_err_handled : bool;
   t_unique : bool;                    (* has a unique_key (join) *)
-  t_uid : nat                         (* position of the row's random id in the DB's id order *)
+  t_uid : nat;                        (* position of the row's random id in the DB's id order *)
+  t_trig : list nat                   (* runtime_context['triggered_by']: ids of the task executions that triggered it *)
 }.
 
 Record arow := mkArow { a_task : nat; a_state : state; a_accepted : bool }.
 
 (* workflow commands (mistral/workflow/commands.py) *)
 Inductive cmd :=
-| CRunTask (name : nat) (ev : evkind) (waiting : bool)
+| CRunTask (name : nat) (ev : evkind) (waiting : bool) (trig : option nat)
 | CRunExisting (tid : nat) (reset rerun : bool)
 | CSkip (tid : nat)
 | CSetState (s : state)               (* fail / succeed / pause *)
@@ -114,7 +115,7 @@ Fixpoint set_nth {A} (n : nat) (x : A) (l : list A) : list A :=
   | y :: r, S k => y :: set_nth k x r
   end.
 
-Definition dummy_trow := mkTrow 0 Invalid false [] false false false 0.
+Definition dummy_trow := mkTrow 0 Invalid false [] false false false 0 [].
 Definition get_task (s : st) (tid : nat) : trow := nth tid (tasks s) dummy_trow.
 Definition dummy_arow := mkArow 0 Invalid false.
 Definition get_act (s : st) (aid : nat) : arow := nth aid (acts s) dummy_arow.
@@ -139,9 +140,11 @@ Definition set_calls (s : st) (c : list nat) : st :=
   mkSt (wf_created s) (wf_state s) (backlog s) (tasks s) (acts s) c (pend s) (uids s).
 
 Definition t_set_state (r : trow) (x : state) : trow :=
-  mkTrow (t_name r) x (t_processed r) (t_next r) (t_has_next r) (t_err_handled r) (t_unique r) (t_uid r).
+  mkTrow (t_name r) x (t_processed r) (t_next r) (t_has_next r) (t_err_handled r) (t_unique r) (t_uid r) (t_trig r).
+Definition t_set_trig (r : trow) (l : list nat) : trow :=
+  mkTrow (t_name r) (t_state r) (t_processed r) (t_next r) (t_has_next r) (t_err_handled r) (t_unique r) (t_uid r) l.
 Definition t_set_processed (r : trow) (b : bool) : trow :=
-  mkTrow (t_name r) (t_state r) b (t_next r) (t_has_next r) (t_err_handled r) (t_unique r) (t_uid r).
+  mkTrow (t_name r) (t_state r) b (t_next r) (t_has_next r) (t_err_handled r) (t_unique r) (t_uid r) (t_trig r).
 
 (* a transaction: new state + post-commit operations registered so far *)
 Definition tx := (st * list op)%type.
@@ -305,6 +308,32 @@ Definition logical_state (sp : spec) (s : st) (tid : nat) : state :=
   let r := get_task s tid in
   if is_join sp (t_name r) then join_logical sp s (t_name r) else t_state r.
 
+(* TaskLogicalState.triggered_by: the inbound executions inducing the verdict *)
+Definition induced_tid (sp : spec) (s : st) (inb join : nat) (want : induced) : list nat :=
+  match find_last_by_name s inb with
+  | Some tid =>
+    match induced_state sp s inb join, want with
+    | IndRunning, IndRunning | IndError, IndError => [tid]
+    | _, _ => []
+    end
+  | None => []
+  end.
+
+Definition logical_triggered_by (sp : spec) (s : st) (tid : nat) (lg : state) : list nat :=
+  let name := t_name (get_task s tid) in
+  if negb (is_join sp name) then []
+  else match inbound sp name with
+       | [] => []
+       | ins =>
+         if state_eqb lg RUNNING then flat_map (fun m => induced_tid sp s m name IndRunning) ins
+         else if state_eqb lg ERROR then
+           match ts_join (get_ts sp name) with
+           | JAll => flat_map (fun m => induced_tid sp s m name IndError) ins
+           | _ => []
+           end
+         else []
+       end.
+
 (* find_indirectly_affected_task_executions: join executions reachable through
    outbound edges; the walk stops at joins that have an execution. *)
 Fixpoint affected_walk (fuel : nat) (sp : spec) (s : st) (work visited acc : list nat) : list nat :=
@@ -373,9 +402,9 @@ Definition find_next_tasks (sp : spec) (r : trow) : option (list (target * evkin
   obind (if is_completed x && negb (is_cancelled_or_skipped x) then eval_clause (ts_compl t) OnComplete else Some []) (fun l4 =>
   Some (l1 ++ l2 ++ l3 ++ l4))))).
 
-Definition to_cmd (sp : spec) (p : target * evkind) : cmd :=
+Definition to_cmd (sp : spec) (by_tid : nat) (p : target * evkind) : cmd :=
   match fst p with
-  | TTask n => CRunTask n (snd p) (is_join sp n)
+  | TTask n => CRunTask n (snd p) (is_join sp n) (Some by_tid)
   | TFail => CSetState ERROR
   | TSucceed => CSetState SUCCESS
   | TPause => CSetState PAUSED
@@ -384,8 +413,8 @@ Definition to_cmd (sp : spec) (p : target * evkind) : cmd :=
 
 (* dispatcher._rearrange_commands: list.sort with the (inconsistent) comparator
    _compare_task_commands, reproduced exactly by Model/PySort.v. *)
-Definition is_waiting_cmd (c : cmd) : bool := match c with CRunTask _ _ true => true | _ => false end.
-Definition cmd_key (c : cmd) : nat := match c with CRunTask n _ _ => n | _ => 0 end.
+Definition is_waiting_cmd (c : cmd) : bool := match c with CRunTask _ _ true _ => true | _ => false end.
+Definition cmd_key (c : cmd) : nat := match c with CRunTask n _ _ _ => n | _ => 0 end.
 
 (* functools.cmp_to_key(_compare_task_commands): lt a b = (cmp a b < 0) *)
 Definition cmd_lt (a b : cmd) : bool :=
@@ -413,16 +442,50 @@ Definition rearrange (l : list cmd) : list cmd :=
   end.
 
 (* Task.defer for a join RunTask command: returns the task id *)
-Definition defer (s : st) (name : nat) : st * nat :=
+Definition trig_list (trig : option nat) : list nat := match trig with Some t => [t] | None => [] end.
+
+(* Task._is_triggered_by_known_tasks (F7c fix) *)
+Definition triggered_by_known (r : trow) (trig : option nat) : bool :=
+  match trig with
+  | None => false
+  | Some t => mem_nat t (t_trig r)
+  end.
+
+(* Task._can_be_reentered: the task is reachable from itself through outbound transitions *)
+Fixpoint reach_walk (fuel : nat) (sp : spec) (goal : nat) (work visited : list nat) : bool :=
+  match fuel with
+  | O => false
+  | S f =>
+    match work with
+    | [] => false
+    | n :: rest =>
+      if Nat.eqb n goal then true
+      else if mem_nat n visited then reach_walk f sp goal rest visited
+      else reach_walk f sp goal (rest ++ outbound sp n) (n :: visited)
+    end
+  end.
+
+Definition can_be_reentered (sp : spec) (name : nat) : bool :=
+  reach_walk (S (length sp + sum_out sp + length (outbound sp name))) sp name (outbound sp name) [].
+
+(* returns the state, the task id, and whether a workflow completion check is registered *)
+Definition defer (sp : spec) (s : st) (name : nat) (trig : option nat) : st * nat * bool :=
   match find_join_exec s name true with
-  | Some tid => (s, tid)
+  | Some tid => (s, tid, false)
   | None =>
     match find_join_exec s name false with
     | Some tid =>
-      (* existing and not WAITING: back to WAITING only if it completed before (F7a fix);
-         a join that is still running is left alone *)
-      if is_completed (t_state (get_task s tid)) then (task_set_state s tid WAITING, tid) else (s, tid)
-    | None => (add_task s (mkTrow name WAITING false [] false false true (next_uid s)), length (tasks s))
+      (* existing and not WAITING: back to WAITING only if it completed before (F7a fix: a join
+         that is still running is left alone), it lies on a cycle (F7b fix: otherwise a late
+         inbound branch of a partial join would run it again) and the trigger is not one that
+         already triggered its previous run (F7c fix: recalculated commands, e.g. on resume);
+         a completed join that is not re-armed registers a workflow completion check *)
+      if is_completed (t_state (get_task s tid)) && can_be_reentered sp name
+         && negb (triggered_by_known (get_task s tid) trig)
+      then (task_set_state s tid WAITING, tid, false)
+      else (s, tid, is_completed (t_state (get_task s tid)))
+    | None => (add_task s (mkTrow name WAITING false [] false false true (next_uid s) (trig_list trig)),
+               length (tasks s), false)
     end
   end.
 
@@ -456,11 +519,11 @@ Definition complete_pre (t : tx) (tid : nat) (x : state) : pre_res :=
     match nexts with
     | None => PreRaised (s1, snd t)
     | Some nx =>
-      let cmds := map (to_cmd sp) nx in
+      let cmds := map (to_cmd sp tid) nx in
       let nt := flat_map (fun p => match fst p with TTask n => [(n, snd p)] | _ => [] end) nx in
       let has := match nt with [] => false | _ => true end in
       let eh := if state_eqb x ERROR then existsb (fun p => evkind_eqb (snd p) OnError) nx else t_err_handled r1 in
-      let r2 := mkTrow (t_name r1) x (t_processed r1) nt has eh (t_unique r1) (t_uid r1) in
+      let r2 := mkTrow (t_name r1) x (t_processed r1) nt has eh (t_unique r1) (t_uid r1) (t_trig r1) in
       let s2 := upd_task s1 tid r2 in
       if is_paused (wf_state s2) then PreCmds (s2, snd t) []   (* not processed, nothing dispatched *)
       else
@@ -468,6 +531,24 @@ Definition complete_pre (t : tx) (tid : nat) (x : state) : pre_res :=
         let ops := if negb has then snd t ++ [OCheck] else snd t in
         PreCmds (s3, ops) cmds
     end.
+
+(* the non-recursive commands, as transaction transformers *)
+Definition backlog_push (t : tx) (c : cmd) : tx :=
+  (set_backlog (fst t) (backlog (fst t) ++ [c]), snd t).
+
+Definition run_task_cmd (sp : spec) (t : tx) (name : nat) (waiting : bool) (trig : option nat) : tx :=
+  let s := fst t in
+  let '(s1, tid, chk) := if waiting then defer sp s name trig
+                         else (add_task s (mkTrow name IDLE false [] false false false (next_uid s) (trig_list trig)),
+                               length (tasks s), false) in
+  (s1, snd t ++ (if chk then [OCheck] else []) ++ [OStartTask tid true false false]).
+
+Definition run_existing_cmd (t : tx) (tid : nat) (reset rerun : bool) : tx :=
+  let s := fst t in
+  let waiting := state_eqb (t_state (get_task s tid)) WAITING in
+  (* create_task: a WAITING task being rerun gets its refresh job scheduled directly *)
+  let s1 := if waiting && rerun then add_pend s (IRefresh tid) else s in
+  (s1, snd t ++ [OStartTask tid false rerun reset]).
 
 Fixpoint process_cmds (fuel : nat) (t : tx) (cmds : list cmd) : result :=
   match fuel with
@@ -478,20 +559,11 @@ Fixpoint process_cmds (fuel : nat) (t : tx) (cmds : list cmd) : result :=
     | c :: rest =>
       let s := fst t in
       if is_completed (wf_state s) then (t, FOk)
-      else if state_eqb (wf_state s) PAUSED then
-        process_cmds f (set_backlog s (backlog s ++ [c]), snd t) rest
+      else if state_eqb (wf_state s) PAUSED then process_cmds f (backlog_push t c) rest
       else
         match c with
-        | CRunTask name _ waiting =>
-          let '(s1, tid) := if waiting then defer s name
-                            else (add_task s (mkTrow name IDLE false [] false false false (next_uid s)), length (tasks s)) in
-          process_cmds f (s1, snd t ++ [OStartTask tid true false false]) rest
-        | CRunExisting tid reset rerun =>
-          let r := get_task s tid in
-          let waiting := state_eqb (t_state r) WAITING in
-          (* create_task: a WAITING task being rerun gets its refresh job scheduled directly *)
-          let s1 := if waiting && rerun then add_pend s (IRefresh tid) else s in
-          process_cmds f (s1, snd t ++ [OStartTask tid false rerun reset]) rest
+        | CRunTask name _ waiting trig => process_cmds f (run_task_cmd sp t name waiting trig) rest
+        | CRunExisting tid reset rerun => process_cmds f (run_existing_cmd t tid reset rerun) rest
         | CSkip tid =>
           match complete_task f t tid SKIPPED with
           | (t2, FOk) => process_cmds f t2 rest
@@ -536,7 +608,7 @@ End Dispatch.
 
 (* task_handler.force_fail_task *)
 Definition force_fail (s : st) (tid : nat) : st :=
-  let s1 := upd_task s tid (t_set_state (nth tid (tasks s) (mkTrow 0 Invalid false [] false false false 0)) ERROR) in
+  let s1 := upd_task s tid (t_set_state (nth tid (tasks s) (mkTrow 0 Invalid false [] false false false 0 [])) ERROR) in
   match fail_workflow s1 with Some s2 => s2 | None => s1 end.
 
 Definition FUEL (sp : spec) (s : st) : nat := 4 * (length sp + length (tasks s) + length (backlog s)) + 16.
@@ -697,24 +769,28 @@ Fixpoint run_ops (sp : spec) (s : st) (ops : list op) : st :=
     run_ops sp s1 rest
   end.
 
-(* _refresh_task_state job *)
+(* _refresh_task_state job: the part after the logical state has been computed *)
+Definition refresh_body (sp : spec) (s : st) (tid : nat) (lg : state) : st * outc :=
+  if state_eqb lg RUNNING then
+    (* continue_task: set RUNNING, run() = _run_existing *)
+    let s1 := task_set_state s tid RUNNING in
+    let t1 := schedule_action (reset_actions s1 tid false, []) tid in
+    (commit (check_affected sp t1 tid), Ok)
+  else if state_eqb lg ERROR then
+    match complete_task sp (FUEL sp s) (s, []) tid ERROR with
+    | (t1, FOk) => (commit (check_affected sp t1 tid), Ok)
+    | (t1, FForce) => (commit (force_fail (fst t1) tid, snd t1), Ok)
+    end
+  else (s, Ok).
+
 Definition do_refresh (sp : spec) (s : st) (tid : nat) : st * outc :=
   let r := get_task s tid in
   if is_completed (t_state r) || state_eqb (t_state r) RUNNING then (s, Ok)
   else if is_completed (wf_state s) then (s, Ok)
   else
     let lg := logical_state sp s tid in
-    if state_eqb lg RUNNING then
-      (* continue_task: set RUNNING, run() = _run_existing *)
-      let s1 := task_set_state s tid RUNNING in
-      let t1 := schedule_action (reset_actions s1 tid false, []) tid in
-      (commit (check_affected sp t1 tid), Ok)
-    else if state_eqb lg ERROR then
-      match complete_task sp (FUEL sp s) (s, []) tid ERROR with
-      | (t1, FOk) => (commit (check_affected sp t1 tid), Ok)
-      | (t1, FForce) => (commit (force_fail (fst t1) tid, snd t1), Ok)
-      end
-    else (s, Ok).
+    (* task_ex.runtime_context['triggered_by'] = log_state.triggered_by *)
+    refresh_body sp (upd_task s tid (t_set_trig r (logical_triggered_by sp s tid lg))) tid lg.
 
 Definition nth_call (s : st) (name : nat) : nat := nth name (calls s) 0.
 Fixpoint bump (l : list nat) (n : nat) : list nat :=
@@ -731,7 +807,7 @@ Definition step (sp : spec) (s : st) (e : ev) : st * outc :=
     if wf_created s then (s, NotEnabled)
     else
       let s0 := mkSt true RUNNING [] [] [] [] (pend s) (uids s) in
-      let cmds := map (fun n => CRunTask n OnSuccess false) (start_tasks sp) in
+      let cmds := map (fun n => CRunTask n OnSuccess false None) (start_tasks sp) in
       match dispatch sp (FUEL sp s0) (s0, []) cmds with
       | (t1, FOk) =>
         match check_and_complete (fst t1) with
@@ -788,7 +864,7 @@ Definition step (sp : spec) (s : st) (e : ev) : st * outc :=
         let unproc := filter (fun p => is_completed (t_state (snd p)) && negb (t_processed (snd p)))
                              (combine (seq 0 (length (tasks s1))) (tasks s1)) in
         let nx := fold_right (fun p acc => match acc, find_next_tasks sp (snd p) with
-                                           | Some l, Some m => Some (map (to_cmd sp) m ++ l)
+                                           | Some l, Some m => Some (map (to_cmd sp (fst p)) m ++ l)
                                            | _, _ => None end) (Some []) unproc in
         match nx with
         | None => (s, Declared)
@@ -811,6 +887,8 @@ Definition step (sp : spec) (s : st) (e : ev) : st * outc :=
       | None => (s, Declared)
       | Some s1 =>
         let cmds := [CRunExisting tid reset true] in
+        (* task.cleanup_runtime_context() *)
+        let s1 := upd_task s1 tid (t_set_trig (get_task s1 tid) []) in
         match continue_workflow sp (s1, []) cmds with
         | (t1, FOk) => (commit t1, Ok)
         | (_, FForce) => (s, Declared)
@@ -824,6 +902,7 @@ Definition step (sp : spec) (s : st) (e : ev) : st * outc :=
       match wf_set_state s RUNNING with
       | None => (s, Declared)
       | Some s1 =>
+        let s1 := upd_task s1 tid (t_set_trig (get_task s1 tid) []) in
         match continue_workflow sp (s1, []) [CSkip tid] with
         | (t1, FOk) => (commit (check_affected sp t1 tid), Ok)
         | (_, FForce) => (s, Declared)
